@@ -174,6 +174,12 @@ def run(rep: Report, tier: str) -> None:
     rep.check(ok, rd, OP, po.qualname, "artificial transactions are drained after the loop into the set of their own class", "the artificial-transaction list is not drained completely, after the row loop, into the IN/OUT/INTRA set matching each transaction's class", loc(po.node))
 
     # ---------------------------------------------------------------- C11.e
+    from . import c04
+
+    rf = rep.rule("C11.f", "empty optional cells default as documented: per class and per combination of supplied / absent optional columns (C04.b restated, incl. constructor read order)", floor=20)
+    for kind, fn in (("in", c04._check_in), ("out", c04._check_out), ("intra", c04._check_intra)):
+        fn(rep, rf, m, classes[kind])
+        c04._check_read_order(rep, rf, m, classes[kind])
     check_split(rep, rep.rule("C11.e", "crypto-fee split: acquisition forwarded field by field (crypto_fee=None), FEE out-transaction of the crypto fee with a fresh negative id", floor=20))
 
 
